@@ -9,7 +9,7 @@ import itertools, sys
 from fractions import Fraction as F
 from . import common as C
 
-CLAIM_MORE = "The clause 'to rounding' is NOW A THEOREM (coq/Props/C16f.v, 26 statements): under |rnd x - x| <= eps|x| the running total satisfies |total - sum of stored weights| <= ((1+eps)^n - 1) * 2 * peak after every history, an emptied structure has total exactly 0, insert stores exactly and an increment is one rounding, stored weights equal the specification when increments create their key; rnd53 (round to nearest even, 53 bits, over Q) is proved to have relative error 2^-53, so the binary64 instances are unconditional; the model at rnd53 is tied bit for bit to the Python class on binary64 histories."
+CLAIM_MORE = "The clause 'to rounding' is NOW A THEOREM (coq/Props/C16f.v, 26 statements): under |rnd x - x| <= eps|x| the running total satisfies |total - sum of stored weights| <= ((1+eps)^n - 1) * 2 * peak after every history, an emptied structure has total exactly 0, insert stores exactly and an increment is one rounding, stored weights equal the specification when increments create their key; rnd53 (round to nearest even, 53 bits, over Q) is proved to have relative error 2^-53 and to be monotone (coq/Props/C16fm.v), so the binary64 instances — including the accept threshold lying in [0,1] — are unconditional; the model at rnd53 is tied bit for bit to the Python class on binary64 histories."
 
 CLAIM = dict(
     text="Machine-checked theorems (coq/Props/C16.v, closed under the global context) over an executable model of _ListDict_ written as the code is "
@@ -196,46 +196,51 @@ def run_case(sim, weighted, ops, conv):
         if 'err' in o:
             break
     probes = []; pres = []
-    if obs and 'err' not in obs[-1] and spec:
-        e30 = F(1, 2 ** 30)
-        thr = {}
-        for k in sorted(spec):
-            if weighted:
-                mw = F(ld.max_weight)
-                if mw == 0:
-                    us = [F(1, 2)]
+    try:
+        if obs and 'err' not in obs[-1] and spec:
+            e30 = F(1, 2 ** 30)
+            thr = {}
+            for k in sorted(spec):
+                if weighted:
+                    mw = F(ld.max_weight)
+                    if mw == 0:
+                        us = [F(1, 2)]
+                    else:
+                        t = F(ld.weight[k]) / mw
+                        thr[k] = t
+                        us = [u for u in (t - e30, t + e30, F(0)) if 0 <= u < 1]
                 else:
-                    t = F(ld.weight[k]) / mw
-                    thr[k] = t
-                    us = [u for u in (t - e30, t + e30, F(0)) if 0 <= u < 1]
-            else:
-                us = [F(1, 2)]
-            for u in us:
-                probes.append((k, u)); pres.append(probe(sim, ld, k, u))
-        _PERSIST[0] += 1
-        if weighted and bad is None and thr and _PERSIST[0] % 12 == 0:
-            # a persistent-rejection probe on every 12th history: the lightest candidate with a draw just above its threshold, thousands of rounds
-            k0 = min(thr, key=lambda k: (thr[k], k))
-            if thr[k0] < 1:
-                rr = probe_persistent(sim, ld, k0, min(F(1) - F(1, 2 ** 40), thr[k0] + e30))
-                if rr != 'R':
-                    bad = 'choose_random returned a candidate although its accept test (u >= weight/max_weight = %s) failed in every round: %s' % (thr[k0], rr)
-        if weighted and bad is None and sum(spec.values()) > 0:
-            # selection law from the observed thresholds: P(k) = thr_k / sum thr, needs thr_k <= 1
-            tot_thr = sum(thr.values()); W = sum(spec.values())
-            for (k, u), r in zip(probes, pres):
-                exp = 'A %d' % k if u < thr[k] else 'R'
-                if r != exp:
-                    bad = 'choose_random with candidate %r and u=%s gave %s, threshold weight/max_weight=%s' % (k, u, r, thr[k])
-            if bad is None and max(thr.values()) > 1:
-                bad = 'accept probability %s > 1 (max_weight %s below a current weight): selection no longer proportional' % (max(thr.values()), ld.max_weight)
-            elif bad is None and tot_thr == 0:
-                bad = 'no candidate can ever be accepted although the total weight is %s' % W
-            elif bad is None:
-                for k in spec:
-                    if thr[k] / tot_thr != spec[k] / W:
-                        bad = 'selection probability of %r is %s, weight/total is %s' % (k, thr[k] / tot_thr, spec[k] / W)
-                        break
+                    us = [F(1, 2)]
+                for u in us:
+                    probes.append((k, u)); pres.append(probe(sim, ld, k, u))
+            _PERSIST[0] += 1
+            if weighted and bad is None and thr and _PERSIST[0] % 12 == 0:
+                # a persistent-rejection probe on every 12th history: the lightest candidate with a draw just above its threshold, thousands of rounds
+                k0 = min(thr, key=lambda k: (thr[k], k))
+                if thr[k0] < 1:
+                    rr = probe_persistent(sim, ld, k0, min(F(1) - F(1, 2 ** 40), thr[k0] + e30))
+                    if rr != 'R':
+                        bad = 'choose_random returned a candidate although its accept test (u >= weight/max_weight = %s) failed in every round: %s' % (thr[k0], rr)
+            if weighted and bad is None and sum(spec.values()) > 0:
+                # selection law from the observed thresholds: P(k) = thr_k / sum thr, needs thr_k <= 1
+                tot_thr = sum(thr.values()); W = sum(spec.values())
+                for (k, u), r in zip(probes, pres):
+                    exp = 'A %d' % k if u < thr[k] else 'R'
+                    if r != exp:
+                        bad = 'choose_random with candidate %r and u=%s gave %s, threshold weight/max_weight=%s' % (k, u, r, thr[k])
+                if bad is None and max(thr.values()) > 1:
+                    bad = 'accept probability %s > 1 (max_weight %s below a current weight): selection no longer proportional' % (max(thr.values()), ld.max_weight)
+                elif bad is None and tot_thr == 0:
+                    bad = 'no candidate can ever be accepted although the total weight is %s' % W
+                elif bad is None:
+                    for k in spec:
+                        if thr[k] / tot_thr != spec[k] / W:
+                            bad = 'selection probability of %r is %s, weight/total is %s' % (k, thr[k] / tot_thr, spec[k] / W)
+                            break
+    except Exception as e:
+        # the class broke while it was being probed (its own bookkeeping raised): on a valid history that is a failing input, not a crash of the check
+        if bad is None:
+            bad = 'probing the candidates of a valid history made the class raise %s: %s' % (type(e).__name__, str(e)[:80])
     return obs, bad, probes, pres
 
 
